@@ -55,9 +55,12 @@ def tasks(tier, seed):
                 T.append(('fixedpoint', Mf, Mc, sw, finter, 1))
             T.append(('defect', Mf, Mc, sw))
     # different quadrature types on the levels (a coarse level with the left end point as node under a fine level without)
-    for qts in ((('RADAU-RIGHT', 'LOBATTO'), ('GAUSS', 'RADAU-LEFT')) if quick else (('RADAU-RIGHT', 'LOBATTO'), ('GAUSS', 'RADAU-LEFT'), ('RADAU-RIGHT', 'RADAU-LEFT'), ('LOBATTO', 'RADAU-RIGHT'), ('LOBATTO', 'LOBATTO'))):
+    QT = ('RADAU-RIGHT', 'LOBATTO', 'GAUSS', 'RADAU-LEFT')
+    for qts in [(a, b) for a in QT for b in QT if (a, b) != ('RADAU-RIGHT', 'RADAU-RIGHT')]:  # every pair: end points present on one level and absent on the other included
         for sw in ('implicit', 'explicit'):
             T.append(('fixedpoint', 3, 2, sw, False, 1, qts))
+            if not quick:
+                T.append(('fixedpoint', 3, 3, sw, True, 1, qts))
     T.append(('fixedpoint3', 2, 2, 1, 'implicit', 1))
     T.append(('fixedpoint3', 3, 2, 1, 'explicit', 1))
     T.append(('fixedpoint3', 3, 2, 2, 'implicit', 1))  # equal node counts on the pair that inherits a correction
